@@ -6,7 +6,7 @@ exact-size heap buffers; the verdict comes from vlib/ref/der.py (strict X.690), 
 (Dec(Enc(v)) = v, Enc(Dec(x)) = x[:consumed], mutant => rejected).  Over-reads are found by ASan:
 the runner turns a dead worker into a violation keyed by report kind and function.
 """
-import base64, ctypes, hashlib, json, os, re, subprocess
+import base64, ctypes, hashlib, json, os, random, re, subprocess
 
 from .. import build, core
 from ..bee2 import errname
@@ -511,7 +511,7 @@ PSTR_VALUES = [("pstr:NUL", b"\x00"), ("pstr:NUL-inside", b"AB\x00CD"), ("pstr:a
                ("pstr:underscore", b"_"), ("pstr:ampersand", b"&"), ("pstr:all", bytes(sorted(D.PRINTABLE)))]
 
 
-def der_samples(rng):
+def der_samples(rng, extra=0):
     """valid typed samples: (type, tag, content octets)"""
     S = []
     for tag in (0x02, 0x5F29, 0x41):
@@ -531,6 +531,16 @@ def der_samples(rng):
         S.append(("OID", 0x06, D.oid_enc(s)))
     for s in (b"", b"BYCA0000", b"a", b"Hello, world (1+1=2)?", b"A" * 128):
         S.append(("PSTR", 0x13 if s != b"a" else 0x42, s))
+    for _ in range(extra):
+        n = rng.choice((1, 2, 8, 9, 33, 65, 129))
+        S.append(("UINT", 0x02, D.uint_enc(rng.getrandbits(8 * n) | 1 << (8 * n - 1 - rng.randrange(2)))))
+        S.append(("SIZE", 0x02, D.uint_enc(rng.getrandbits(rng.randint(1, 64)))))
+        S.append(("OCT", rng.choice((0x04, 0x80, 0x5F37, 0x9F8101)), bytes(rng.getrandbits(8) for _ in range(rng.choice((3, 126, 129, 254, 257))))))
+        nb = rng.randint(1, 300)
+        S.append(("BIT", 0x03, D.bit_enc(bytes(rng.getrandbits(8) for _ in range((nb + 7) // 8)), nb)))
+        S.append(("OID", 0x06, D.oid_enc("%d.%d" % (rng.choice(((0, rng.randrange(40)), (1, rng.randrange(40)), (2, rng.getrandbits(rng.randint(1, 31))))))
+                                          + "".join(".%d" % rng.getrandbits(rng.randint(1, 32)) for _ in range(rng.randint(0, 6))))))
+        S.append(("PSTR", 0x13, bytes(rng.choice(sorted(D.PRINTABLE)) for _ in range(rng.randint(1, 40)))))
     S.append(("NULL", 0x05, b""))
     inner = D.enc(0x02, b"\x01") + D.enc(0x04, b"\xaa\xbb")
     S.append(("SEQ", 0x30, inner))
@@ -562,10 +572,10 @@ def asked_tag(tagoct, orig):
 
 def der_cases(ctx):
     """the complete deterministic list of (class, op, x, args) for the typed codecs"""
-    rng = ctx.rng
+    rng = random.Random("c08/der/%s" % ctx.seed)          # the same list in every chunk job
     cases = []
     seen_types = set()
-    samples = der_samples(rng)
+    samples = der_samples(rng, ctx.params.get("extra", 0))
     for ty, tag, val in samples:
         t = D.tag_enc(tag)
         ops = TYPED_OPS[ty]
@@ -654,7 +664,54 @@ def der_cases(ctx):
             for o in sorted(a for a in alts if D.oid_valid(a)):
                 cases.append(("der:dec2:OID:" + ("same" if o == s else "shorter" if len(o) < len(s) else "longer-or-different"),
                               "derOIDDec2", valid, (o,)))
+    # random structured strings through the TL level and every typed decoder (tag asked = the tag read)
+    for _ in range(ctx.params.get("random", 600)):
+        x = random_tlv_like(rng)
+        try:
+            tag = D.tag_dec(x, 0)[0]
+        except D.Bad:
+            tag = x[0] if x else 0
+        for op in TL_OPS + ("derStartsWith",):
+            cases.append(("der:random", op, x, op_args(op, tag)))
+        for oops in TYPED_OPS.values():
+            for op in oops:
+                if op != "derTSEQDecStart" or (D.tag_valid(tag) and D.tag_constructed(tag) and tag < 0x100):
+                    cases.append(("der:random", op, x, op_args(op, tag)))
     return cases
+
+
+def random_tlv_like(rng):
+    firsts = [0x02, 0x03, 0x04, 0x05, 0x06, 0x13, 0x30, 0x1F, 0x7F, 0x5F, 0xFF, 0x00, 0x1E, 0x9F]
+    t = bytes([rng.choice(firsts)]) if rng.random() < 0.8 else bytes([rng.getrandbits(8)])
+    if t[0] & 31 == 31:
+        t += bytes(rng.choice((0x00, 0x80, 0x81, 0x1E, 0x1F, 0x7F, 0xFF, rng.getrandbits(8))) for _ in range(rng.randint(0, 4)))
+    v = bytes(rng.choice((0x00, 0x01, 0x7F, 0x80, 0x81, 0xFF, 0x2A, 0x41, rng.getrandbits(8))) for _ in range(rng.choice((0, 1, 2, 3, 5, 9, 10, 17))))
+    lf = rng.random()
+    if lf < 0.55:
+        l = D.len_enc(len(v))
+    elif lf < 0.7:
+        l = bytes([rng.getrandbits(7)])
+    elif lf < 0.75:
+        l = bytes([rng.choice((0x80, 0xFF))])
+    else:
+        r = rng.randint(1, 9)
+        l = bytes([0x80 + r]) + bytes(rng.choice((0, 0, 1, 0x7F, 0x80, 0xFF, rng.getrandbits(8))) for _ in range(rng.randint(max(0, r - 1), r)))
+    return t + l + v
+
+
+WALKERS = ("derOIDDec", "oidFromDER", "derOIDDec2", "derTPSTRDec", "derTUINTDec", "derTUINTDec2", "derTBITDec", "derTBITDec2")
+
+
+def crash_prone(cls, op, x, a):
+    """shapes on which the current tree is known to read out of bounds or assert: they are run first, so that the rest of the
+    job lies in the final worker segment (the runner keeps class statistics of the last segment only)"""
+    if op in ("derTSIZEDec", "derTSIZEDec2") and tsize_overread_shape(x, a[0]):
+        return True
+    if op in WALKERS and b"\x88\xff\xff\xff\xff\xff\xff\xff" in x[:16]:
+        return True
+    if op == "derOIDDec2" and cls.endswith(":shorter"):
+        return True
+    return op == "derTSEQDecStart" and cls == "der:tag:3-octet-number-128"
 
 
 def tsize_overread_shape(x, tag):
@@ -677,10 +734,10 @@ def unit_der(ctx):
     reported = set()
     budget = {"tsize": 3, "oid2short": 2, "seqtag128": 1}
     skipped = 0
-    for i, (cls, op, x, a) in enumerate(der_cases(ctx)):
-        if i % n != k:
-            continue
-        if scale < 1.0 and (i // n) % max(1, round(1 / scale)) and not cls.startswith("der:valid"):
+    mine = [(i, c) for i, c in enumerate(der_cases(ctx)) if i % n == k]
+    mine.sort(key=lambda ic: 0 if crash_prone(*ic[1]) else 1)
+    for i, (cls, op, x, a) in mine:
+        if scale < 1.0 and (i // n) % max(1, round(1 / scale)) and not cls.startswith("der:valid") and not crash_prone(cls, op, x, a):
             continue
         if op in ("derTSIZEDec", "derTSIZEDec2") and tsize_overread_shape(x, a[0]):
             if budget["tsize"] <= 0:
@@ -1016,22 +1073,26 @@ def unit_tl_exhaust(ctx):
 
 
 def unit_tl_one(ctx):
-    """replay of one literal input through the TL-level entry points (in-process, same oracle as unit_der)"""
+    """replay of one literal input through the harness (same functions, same oracle, same keys as unit_tl_exhaust)"""
     models()
-    calls = DerCalls(ctx.lib)
-    x = bytes.fromhex(ctx.params["input"])
-    reported = set()
-    try:
-        tag = D.tag_dec(x, 0)[0]
-    except D.Bad:
-        tag = x[0] if x else 0
-    for op, a in (("derTLDec", ()), ("derDec", ()), ("derIsValid", ()), ("derStartsWith", (tag,)), ("derDec2", (tag,)), ("derTOCTDec", (tag,))):
-        if ctx.case([op, x, list(a)], "replay"):
-            run_der_case(ctx, calls, op, x, a, "replay", reported)
-            ctx.lib.release()
-    # the harness names its classes after the oracle's reason; reproduce those keys too
-    for k in list(reported):
-        pass
+    exe = _harness_exe(ctx.cfg)
+    inp = ctx.params["input"]
+    ctx.case(["tl_exhaust-one", inp], "replay")
+    p = subprocess.run([exe, "one", inp], capture_output=True, text=True, env=_clean_env())
+    for line in p.stdout.splitlines():
+        try:
+            o = json.loads(line)
+        except ValueError:
+            continue
+        if "mismatch" in o:
+            ctx.violation(o["mismatch"], "bee2 and the strict DER oracle differ", {"input": inp, "got": o["got"], "expected": o["want"]})
+    if p.returncode != 0:
+        m = re.search(r'"fn":"([^"]*)"', p.stderr)
+        key, kind = core.classify_crash(p.stderr, p.returncode)
+        parts = key.split(":")
+        if parts[-1] in ("?", "main", "one") and m:
+            parts[-1] = m.group(1)
+        ctx.violation(":".join(parts), "library crashed / sanitizer report: " + kind, {"input": inp, "stderr": p.stderr[-3000:]})
 
 
 # =============================================================================================
@@ -1169,7 +1230,7 @@ def unit_apdu(ctx):
                 lib.release()
     elif part == "dec":
         k, n = ctx.params["chunk"], ctx.params["of"]
-        for i, (cls, x) in enumerate(apdu_dec_inputs(rng, scale)):
+        for i, (cls, x) in enumerate(apdu_dec_inputs(random.Random("c08/apdu/%s" % ctx.seed), scale)):
             if i % n != k:
                 continue
             ps = A.cmd_parses(x)
@@ -1333,7 +1394,7 @@ def unit_text(ctx):
                         continue
                     validators(head + bytes([c, d]), "text:b64:quad:" + ("pad2" if (c, d) == (61, 61) else "pad1" if d == 61 else "pad-inside" if c == 61 else "nopad"))
     elif part == "random":
-        cnt = int(400 * scale) + 20
+        cnt = int((1500 if ctx.params.get("deep") else 400) * scale) + 20
         for i in range(cnt):
             n = rng.choice((0, 1, 2, 3, 4, 5, 7, 8, 15, 16, 17, 31, 32, 33, 64, 100, 255))
             raw = bytes(rng.getrandbits(8) for _ in range(n))
@@ -1496,6 +1557,37 @@ def container_variants(x, nops):
     yield "extended", len(x), x + x[:2]
 
 
+def oid_value_ranges(x, base=0):
+    """[start, end) of the content octets of every OBJECT IDENTIFIER in a valid nested DER object"""
+    out, pos = [], 0
+    while pos < len(x):
+        tag, nt = D.tag_dec(x, pos)
+        L, nl = D.len_dec(x, pos + nt)
+        v = pos + nt + nl
+        if tag == 0x06:
+            out.append((base + v, base + v + L))
+        elif D.tag_constructed(tag):
+            out += oid_value_ranges(x[v:v + L], base + v)
+        pos = v + L
+    return out
+
+
+def ordered_variants(x, nops, size_tags=(0x02,)):
+    """container_variants with the shapes the current tree is known to mishandle first (see crash_prone):
+    truncations ending inside a SIZE field and mutations of OID content octets. -> (label, pos, y, crashy)"""
+    oids = oid_value_ranges(x)
+    out = []
+    for label, pos, y in container_variants(x, nops):
+        crashy = False
+        if label == "truncated":
+            crashy = any(tsize_overread_shape(y[o:], t) for t in size_tags for o in range(max(0, len(y) - 4), len(y)))
+        elif label.startswith("mutated"):
+            crashy = any(a <= pos < b for a, b in oids)
+        out.append((label, pos, y, crashy))
+    out.sort(key=lambda v: 0 if v[3] else 1)
+    return out
+
+
 def strict_ok(y):
     try:
         D.walk(y)
@@ -1619,11 +1711,11 @@ def unit_params(ctx):
         for sample, base in (("std" + lvl, x), ("std" + lvl + "+cofactor", with_cof)):
             if sample.endswith("cofactor") and lvl != "1":
                 continue
-            for label, pos, y in [("valid", 0, base)] + list(container_variants(base, nops)):
+            for label, pos, y, crashy in [("valid", 0, base, False)] + ordered_variants(base, nops):
                 cls = "params:" + label
                 # truncations that end between the header and the content of a SIZE field: the library is known to read on;
                 # a few per job show it, the rest would only cost worker restarts
-                if label == "truncated" and any(tsize_overread_shape(y[o:], 0x02) for o in range(len(y) - 3, len(y)) if o >= 0):
+                if label == "truncated" and crashy:
                     if budget["size-truncation"] <= 0:
                         withheld += 1
                         continue
@@ -1734,14 +1826,16 @@ def unit_cvc(ctx):
     extra = []
     if not any(eid) and not any(esign):
         extra.append(("explicit-zero-hats", 0, cvc_model_enc(cvc, True, True)))
-    for label, pos, y in [("valid", 0, cert)] + extra + list(container_variants(cert, nops)):
+    for label, pos, y, crashy in [("valid", 0, cert, False)] + [e + (False,) for e in extra] + ordered_variants(cert, nops, (0x5F29,)):
         cls = "cvc:" + label
-        if label == "truncated" and any(tsize_overread_shape(y[o:], 0x5F29) for o in range(max(0, len(y) - 4), len(y))):
+        if label == "truncated" and crashy:
             if budget["size-truncation"] <= 0:
                 withheld += 1
                 continue
             budget["size-truncation"] -= 1
             cls = "cvc:truncated-inside-SIZE"
+        if label.startswith("mutated") and crashy:
+            cls = "cvc:mutated-OID-octet"       # run first: the current tree compares a merged arc beyond the expected string's end
         # btokCVCLen: exact DER length of the outer TLV, two-sided oracle
         if ctx.case(["btokCVCLen", sample, label, pos, xdesc(y) if label != "valid" else "valid"], cls):
             r = lib.btokCVCLen(lib.mk(y), len(y))
@@ -1773,7 +1867,11 @@ def unit_cvc(ctx):
                     viol("btokCVCUnwrap:lengths-beyond-fields", "decoded lengths exceed the structure's fields", pubkey_len=got.pubkey_len, sig_len=got.sig_len)
                 else:
                     m = cvc_model_enc(got)
-                    if m != y and label != "explicit-zero-hats":
+                    # btok.h: an all-zero access word may be present in a certificate and is dropped when encoding
+                    alts = {cvc_model_enc(got, a, b) for a in (False, True) for b in (False, True)}
+                    if m != y and y in alts:
+                        ctx.note("cvc_explicit_zero_access_word_accepted", 1)
+                    elif m != y:
                         viol("btokCVCUnwrap:reencode-differs", "an accepted certificate does not re-encode to itself", mode=mode, variant=label, pos=pos,
                              input=y.hex(), reencoded=m.hex())
                     elif mode == "verify" and label.startswith(("mutated", "spliced", "extended", "truncated")):
@@ -1806,7 +1904,7 @@ def unit_bpki(ctx):
     reported = set()
     kind = ctx.params["kind"]
     k, n = ctx.params.get("chunk", 0), ctx.params.get("of", 1)
-    nops = 1 if ctx.params.get("scale", 1.0) < 1.0 else 2
+    nops = 1 if ctx.params.get("scale", 1.0) < 1.0 else 4 if ctx.params.get("deep") else 2
     budget = {"size-truncation": 4}
     withheld = 0
     pwd, salt, it = b"zed", bytes(range(1, 9)), 10000
@@ -1852,7 +1950,6 @@ def unit_bpki(ctx):
             raise Harness("bpki wrap failed: %s" % errname(x))
         # region names for keys
         iter_pos = x.index(H("02022710"))
-        edata_pos = len(x) - (len(D.dec(x[iter_pos:])[1]) and 0)
         tlv = D.dec(x)[1]
         alg_len = D.dec(tlv)[2]
         edata_start = len(x) - len(tlv) + alg_len
@@ -1865,11 +1962,13 @@ def unit_bpki(ctx):
             ctx.digest(x)
             if why:
                 viol(fn.replace("Unwrap", "Wrap") + ":non-DER:" + why, "the container is not strict DER", got=x.hex())
-        for i, (label, pos, y) in enumerate([("valid", 0, x)] + list(container_variants(x, nops))):
-            if i % n != k:
-                continue
+        allv = [("valid", 0, x, False)] + list(c + (False,) for c in container_variants(x, nops))
+        mine = [(v[0], v[1], v[2], v[0] == "truncated" and any(tsize_overread_shape(v[2][o:], 0x02) for o in range(max(0, len(v[2]) - 4), len(v[2]))))
+                for i, v in enumerate(allv) if i % n == k]
+        mine.sort(key=lambda v: 0 if v[3] else 1)
+        for label, pos, y, crashy in mine:
             cls = "bpki:%s:%s" % (kind, label) + (":" + region(pos) if label.startswith("mutated") else "")
-            if label == "truncated" and any(tsize_overread_shape(y[o:], 0x02) for o in range(max(0, len(y) - 4), len(y))):
+            if crashy:
                 if budget["size-truncation"] <= 0:
                     withheld += 1
                     continue
@@ -1904,11 +2003,9 @@ def unit_bpki(ctx):
             r = lib.bpkiCSRUnwrap(o, 0, p, len(y))
             return lib.rd(o, m) if r == 0 else Odd("probe-and-copy-differ")
 
-        for i, (label, pos, y) in enumerate([("valid", 0, x)] + list(container_variants(x, nops + 1))):
-            if i % n != k:
-                continue
+        for label, pos, y, crashy in [("valid", 0, x, False)] + ordered_variants(x, max(2, nops)):
             cls = "bpki:csr:" + label
-            if label == "truncated" and any(tsize_overread_shape(y[o:], 0x02) for o in range(max(0, len(y) - 4), len(y))):
+            if label == "truncated" and crashy:
                 if budget["size-truncation"] <= 0:
                     withheld += 1
                     continue
@@ -2055,3 +2152,84 @@ def unit_sm(ctx):
                 if isinstance(u2, Odd):
                     viol("%s:plain:%s" % (name, u2.split(":")[0]), "%s without state: %s" % (name, u2), variant=label, pos=pos, input=y.hex())
                 lib.release()
+
+
+# =============================================================================================
+# jobs
+# =============================================================================================
+
+def jobs(tier, scale=1.0):
+    q = tier == "quick"
+    P = lambda **kw: dict(kw, **({"scale": round(scale, 4)} if scale != 1.0 else {}), **({} if q else {"deep": 1}))
+    js = []
+    # exhaustive TL domain: the whole of it unless scaled down (then a spread of first-octet ranges incl. the long-tag ones)
+    if scale >= 1.0:
+        nchunk = 4 if q else 8
+        for i in range(nchunk):
+            js.append({"unit": "c08:unit_tl_exhaust", "params": P(lo=i * 256 // nchunk, hi=(i + 1) * 256 // nchunk)})
+    else:
+        for lo in (0, 28, 60, 124, 156, 252):
+            js.append({"unit": "c08:unit_tl_exhaust", "params": P(lo=lo, hi=lo + 4)})
+    nder = (4 if q else 16) if scale >= 1.0 else 2
+    for k in range(nder):
+        js.append({"unit": "c08:unit_der", "params": P(chunk=k, of=nder, **({} if q else {"extra": 12, "random": 6000}))})
+    js.append({"unit": "c08:unit_der_enc", "params": P()})
+    js.append({"unit": "c08:unit_apdu", "params": P(part="roundtrip")})
+    js.append({"unit": "c08:unit_apdu", "params": P(part="resp")})
+    napdu = 2 if q else 4
+    for k in range(napdu):
+        js.append({"unit": "c08:unit_apdu", "params": P(part="dec", chunk=k, of=napdu)})
+    ntext = (4 if q else 8) if scale >= 1.0 else 32
+    for k in range(ntext if scale >= 1.0 else 2):
+        js.append({"unit": "c08:unit_text", "params": P(part="exhaustive", chunk=k, of=ntext)})
+    js.append({"unit": "c08:unit_text", "params": P(part="b64quads")})
+    for k in range(1 if q else 4):
+        js.append({"unit": "c08:unit_text", "params": P(part="random", stream=k)})
+    js.append({"unit": "c08:unit_params", "params": P()})
+    for i in range(len(CVC_SAMPLES) if scale >= 1.0 else 2):
+        js.append({"unit": "c08:unit_cvc", "params": P(sample=i)})
+    nb = 3 if scale >= 1.0 else 6
+    for kind in ("privkey", "share"):
+        for k in range(nb if scale >= 1.0 else 1):
+            js.append({"unit": "c08:unit_bpki", "params": P(kind=kind, chunk=k, of=nb)})
+    js.append({"unit": "c08:unit_bpki", "params": P(kind="csr")})
+    js.append({"unit": "c08:unit_sm", "params": P()})
+    return js
+
+
+REQUIRED = ("exhaustive:harness-run", "exhaustive:oracle-crosscheck", "tl:ok-exact", "tl:value-truncated", "tl:tag-leading-zero", "tl:len-long-form-for-short",
+            "der:tag:4-octet", "der:tag:leading-zero-80", "der:tag:unterminated-4", "der:len:SIZE_MAX-1", "der:len:SIZE_MAX-16", "der:len:nonminimal-long8",
+            "der:len:0x80", "der:len:0xFF", "der:len:n+1", "der:int:empty", "der:int:negative-80", "der:int:padded-007f", "der:int:9-octet-0100..",
+            "der:oid:empty", "der:oid:truncated-arc", "der:oid:arc=2^32", "der:oid:leading-80", "der:bit:nonzero-padding-0781", "der:truncated",
+            "der:dec2:OID:shorter", "der:dec4:shorter", "der:dec4:longer", "enc:TL:valid-tag", "enc:SEQ:lenlen=3", "oid:string:invalid",
+            "apdu:roundtrip:lcEleE", "apdu:dec:lc=ext:le=2", "apdu:dec:lc=short:le=3", "apdu:dec:truncated", "apdu:resp:rdf",
+            "text:len2", "text:b64:quad:pad1", "text:hex:roundtrip:mixed", "text:b64:padbits",
+            "params:truncated", "params:mutated:xor80", "params:spliced-length:SIZE_MAX-1",
+            "cvc:truncated", "cvc:mutated:xor01:verify", "cvc:spliced-length:L+1:noverify",
+            "bpki:privkey:truncated", "bpki:share:mutated:xor80:edata", "bpki:csr:mutated:xor01", "sm:cmd:roundtrip", "sm:cmd:mutated:xor01", "sm:resp:truncated")
+
+
+def main(run):
+    js = [dict(j, cfg="asan64") for j in jobs(run.tier)]
+    if run.tier == "thorough":
+        reduced = ("c08:unit_der", "c08:unit_der_enc", "c08:unit_apdu", "c08:unit_params", "c08:unit_tl_exhaust", "c08:unit_sm")
+        js += [dict(j, cfg="asan32") for j in jobs("quick", 0.5) if j["unit"] in reduced]
+    run.run_jobs(js)
+    run.coverage_extra["exhaustive_domain"] = ("all 16 843 009 octet strings of length 0..3 through derTLDec/derDec/derDec2-4/derIsValid(2)/derStartsWith/"
+                                                "derTOCTDec/derTSEQDecStart/derTLEnc/derEnc on exact-size heap copies (asan64), judged by an in-harness C oracle "
+                                                "that is compared with ref/der.py on ~86 000 strings every run")
+    return run.finish(
+        rule="a case = one decoder call (probe-then-copy pairs and encode/decode round trips count once) on one octet/character string; "
+             "distinct = distinct (function, input, arguments); bulk cases of the C harness are all distinct inputs. Generated as: the exhaustive "
+             "TL domain; valid samples of every typed codec x {tag forms, length forms, value forms, every truncation, comparison values}; all "
+             "Lc/Le form combinations x data lengths 0..300; all strings <= 2 characters; every truncation / single-octet mutation / length splice "
+             "of library-made parameter sets, CV certificates, bpki containers, CSRs and protected APDUs",
+        assumptions=["APDU: acceptance is judged by rules 1-6 of apdu.h; legal but non-minimal (extended-for-short) codings may be accepted or rejected",
+                     "hex is case-insensitive: only Dec(Enc(v)) = v and hexIsValid <=> model are demanded there",
+                     "CVC: a present all-zero access word is accepted and dropped on re-encoding (documented in btok.h)",
+                     "bignParams: the optional cofactor is accepted and dropped on re-encoding",
+                     "inputs on which a SIZE decoder would have to read beyond the buffer are limited to a few per job (each costs a worker restart when "
+                     "the library does read on); the number withheld is reported as *_withheld_to_bound_restarts",
+                     "derTLEnc(len = SIZE_MAX) is recorded, not judged: SIZE_MAX doubles as the decoders' error value",
+                     "bpki containers: the PBKDF2 iteration count of a mutant is bounded because single-octet mutants keep the two-octet INTEGER"],
+        min_eval=100000, required_classes=REQUIRED)
